@@ -1,7 +1,7 @@
 //! C17 — sparse-matrix editing behaves like a set of (row, column) positions.
 //! Model-based: a BTreeSet is stepped in lock-step with the real SparseMatrix.
 
-use crate::common::Hinted;
+use crate::common::{Hinted, Unfused};
 use crate::engine::*;
 use crate::ensure;
 use ldpc_toolbox::sparse::SparseMatrix;
@@ -265,11 +265,21 @@ pub fn check(case: &Case, p: &mut Probe) -> Check {
                 let l: Vec<usize> = list.iter().map(|&x| ci(x)).collect();
                 // the list arrives as an iterator over references or over values, with one of four truthful size hints
                 let kind = (*a as usize + l.len()) as u8;
-                if kind & 4 == 0 {
-                    h.set_row(r, Hinted { inner: l.iter(), kind });
+                // one bulk operation in four comes from an iterator that is not fused (None after the first
+                // half of the list, then the rest): only what precedes the first None belongs to the operation
+                let l: Vec<usize> = if kind & 24 == 8 {
+                    let stop = l.len() / 2;
+                    h.set_row(r, Unfused::new(l.clone(), stop));
+                    p.class("bulk-operation-from-an-unfused-iterator");
+                    l[..stop].to_vec()
                 } else {
-                    h.set_row(r, Hinted { inner: l.iter().copied(), kind });
-                }
+                    if kind & 4 == 0 {
+                        h.set_row(r, Hinted { inner: l.iter(), kind });
+                    } else {
+                        h.set_row(r, Hinted { inner: l.iter().copied(), kind });
+                    }
+                    l
+                };
                 p.class_if(kind % 4 != 0, "bulk-operation-with-loose-size-hint");
                 model.retain(|e| e.0 != r);
                 for &c in &l {
@@ -281,11 +291,21 @@ pub fn check(case: &Case, p: &mut Probe) -> Check {
                 let l: Vec<usize> = list.iter().map(|&x| ri(x)).collect();
                 // the list arrives as an iterator over references or over values, with one of four truthful size hints
                 let kind = (*a as usize + l.len()) as u8;
-                if kind & 4 == 0 {
-                    h.set_col(c, Hinted { inner: l.iter(), kind });
+                // one bulk operation in four comes from an iterator that is not fused (None after the first
+                // half of the list, then the rest): only what precedes the first None belongs to the operation
+                let l: Vec<usize> = if kind & 24 == 8 {
+                    let stop = l.len() / 2;
+                    h.set_col(c, Unfused::new(l.clone(), stop));
+                    p.class("bulk-operation-from-an-unfused-iterator");
+                    l[..stop].to_vec()
                 } else {
-                    h.set_col(c, Hinted { inner: l.iter().copied(), kind });
-                }
+                    if kind & 4 == 0 {
+                        h.set_col(c, Hinted { inner: l.iter(), kind });
+                    } else {
+                        h.set_col(c, Hinted { inner: l.iter().copied(), kind });
+                    }
+                    l
+                };
                 p.class_if(kind % 4 != 0, "bulk-operation-with-loose-size-hint");
                 model.retain(|e| e.1 != c);
                 for &r in &l {
@@ -297,11 +317,21 @@ pub fn check(case: &Case, p: &mut Probe) -> Check {
                 let l: Vec<usize> = list.iter().map(|&x| ci(x)).collect();
                 // the list arrives as an iterator over references or over values, with one of four truthful size hints
                 let kind = (*a as usize + l.len()) as u8;
-                if kind & 4 == 0 {
-                    h.insert_row(r, Hinted { inner: l.iter(), kind });
+                // one bulk operation in four comes from an iterator that is not fused (None after the first
+                // half of the list, then the rest): only what precedes the first None belongs to the operation
+                let l: Vec<usize> = if kind & 24 == 8 {
+                    let stop = l.len() / 2;
+                    h.insert_row(r, Unfused::new(l.clone(), stop));
+                    p.class("bulk-operation-from-an-unfused-iterator");
+                    l[..stop].to_vec()
                 } else {
-                    h.insert_row(r, Hinted { inner: l.iter().copied(), kind });
-                }
+                    if kind & 4 == 0 {
+                        h.insert_row(r, Hinted { inner: l.iter(), kind });
+                    } else {
+                        h.insert_row(r, Hinted { inner: l.iter().copied(), kind });
+                    }
+                    l
+                };
                 p.class_if(kind % 4 != 0, "bulk-operation-with-loose-size-hint");
                 for &c in &l {
                     model.insert((r, c));
@@ -312,11 +342,21 @@ pub fn check(case: &Case, p: &mut Probe) -> Check {
                 let l: Vec<usize> = list.iter().map(|&x| ri(x)).collect();
                 // the list arrives as an iterator over references or over values, with one of four truthful size hints
                 let kind = (*a as usize + l.len()) as u8;
-                if kind & 4 == 0 {
-                    h.insert_col(c, Hinted { inner: l.iter(), kind });
+                // one bulk operation in four comes from an iterator that is not fused (None after the first
+                // half of the list, then the rest): only what precedes the first None belongs to the operation
+                let l: Vec<usize> = if kind & 24 == 8 {
+                    let stop = l.len() / 2;
+                    h.insert_col(c, Unfused::new(l.clone(), stop));
+                    p.class("bulk-operation-from-an-unfused-iterator");
+                    l[..stop].to_vec()
                 } else {
-                    h.insert_col(c, Hinted { inner: l.iter().copied(), kind });
-                }
+                    if kind & 4 == 0 {
+                        h.insert_col(c, Hinted { inner: l.iter(), kind });
+                    } else {
+                        h.insert_col(c, Hinted { inner: l.iter().copied(), kind });
+                    }
+                    l
+                };
                 p.class_if(kind % 4 != 0, "bulk-operation-with-loose-size-hint");
                 for &r in &l {
                     model.insert((r, c));
